@@ -19,6 +19,9 @@ REQUIRE = {"gate-set-in-force": 3000, "via-parser-expand-let-map": 500, "calls-a
 SWEEP = {}
 
 
+IMPORT_DIR = "/some/where/else"
+
+
 def find_lets(t, path=()):
     """Positions of ('let', name) nodes inside a raw core tree."""
     out = []
@@ -39,7 +42,8 @@ def judge(case):
     text = sx.to_text(prog)
     # with a gate set in force every build (the parse, each rebuild by a pass) works with the same definition objects
     native = X.native() if case.get("native") else None
-    o = lib.outcome(lib.parse, text, native)
+    # relative pulse imports remember the directory they are relative to (not loaded here: autoload_pulses=False)
+    o = lib.outcome(lib.parse, text, native, import_path=IMPORT_DIR)
     if o[0] != "ok":
         return "skipped:input-rejected:" + o[1], []
     c = o[1]
@@ -58,9 +62,9 @@ def judge(case):
     if via_parser and case.get("via_parser") == "map":
         # the parser asked to substitute lets AND aliases (expand_let_map=True) under the overrides: every reference of the
         # result is on the fundamental register and denotes the qubit the overridden program denotes
-        o = lib.outcome(lib.parse, text, native, expand_let_map=True, override_dict=dict(ov) or None)
+        o = lib.outcome(lib.parse, text, native, expand_let_map=True, override_dict=dict(ov) or None, import_path=IMPORT_DIR)
         if o[0] == "jaqal":
-            o1 = lib.outcome(lib.parse, text, native, expand_let=True, override_dict=dict(ov) or None)
+            o1 = lib.outcome(lib.parse, text, native, expand_let=True, override_dict=dict(ov) or None, import_path=IMPORT_DIR)
             if o1[0] == "ok":
                 return "skipped:fill_in_map-precondition", []
             return "ok", [("rejected-valid-program:expand_let_map", {"error": o[2], "ov": ov})]
@@ -85,7 +89,7 @@ def judge(case):
         passed = dict(ov)
     before = dict(passed)
     if via_parser:
-        o = lib.outcome(lib.parse, text, native, expand_let=True, override_dict=passed or None)
+        o = lib.outcome(lib.parse, text, native, expand_let=True, override_dict=passed or None, import_path=IMPORT_DIR)
     else:
         o = lib.outcome(lib.fill_in_let, c, passed or None)
     if passed != before or list(passed) != list(before):
@@ -131,6 +135,11 @@ def judge(case):
             fails.append(("result-registers-unresolvable:" + ex.kind, {"error": str(ex), "ov": ov}))
         if tuple(kr.usepulses) != tuple(kc.usepulses):
             fails.append(("header-changed:usepulses", {"before": kc.usepulses, "after": kr.usepulses}))
+        else:
+            ub = [(str(u.module), str(getattr(u, "_import_path", None))) for u in c.usepulses]
+            ua = [(str(u.module), str(getattr(u, "_import_path", None))) for u in r.usepulses]
+            if ub != ua:
+                fails.append(("header-changed:usepulses:import-path", {"before": ub, "after": ua}))
         if native_names(c) != native_names(r):
             fails.append(("native-gates-changed", {"before": native_names(c), "after": native_names(r)}))
         if list(kr.macros) != list(kc.macros):
